@@ -459,6 +459,11 @@ func Mod(a, b *Term) *Term {
 var constDefs = map[*Term]*Term{}
 
 func Select(arr, idx *Term) *Term {
+	if hasBound(idx) {
+		// under a binder keep the named heap version: patterns must mention the
+		// heap the surrounding facts talk about
+		return mk("select", arr.S.Elem(), arr, idx)
+	}
 	a := arr
 	for {
 		d := a
